@@ -210,7 +210,7 @@ func c01Settled(run *evid.Run, n int, churn bool) (evals, placements int) {
 		}
 	}()
 	ctx := context.Background()
-	lns := map[int]*e4.StampListener{}
+	lns := map[int][]*e4.StampListener{}
 	bits := 2 * n
 	cur := 0
 	settle := func(place int) bool {
@@ -222,10 +222,8 @@ func c01Settled(run *evid.Run, n int, churn bool) (evals, placements int) {
 						return false
 					}
 					for k, ep := range c01Endpoints {
-						want := 0
-						if place&(1<<uint(k*n+j)) != 0 {
-							want = 1
-						}
+						// a cell that is on holds one or two listeners
+						want := len(lns[k*n+j])
 						if nd.Endpoints[ep] != want {
 							return false
 						}
@@ -262,13 +260,18 @@ func c01Settled(run *evid.Run, n int, churn bool) (evals, placements int) {
 			}
 			k, i := b/n, b%n
 			if place&(1<<uint(b)) != 0 {
-				l, err := e4.Listen(ctx, nodes[i].UpstreamAddr(), c01Endpoints[k], fmt.Sprintf("l-%s-%d", c01Endpoints[k], i), e4.ListenOpts{})
-				if err != nil {
-					evid.Fatal("listen: %v", err)
+				// every other time two upstreams of the endpoint attach to the node
+				for c := 0; c < 1+step%2; c++ {
+					l, err := e4.Listen(ctx, nodes[i].UpstreamAddr(), c01Endpoints[k], fmt.Sprintf("l-%s-%d-%d", c01Endpoints[k], i, c), e4.ListenOpts{})
+					if err != nil {
+						evid.Fatal("listen: %v", err)
+					}
+					lns[b] = append(lns[b], l)
 				}
-				lns[b] = l
 			} else {
-				_ = lns[b].Ln.Shutdown()
+				for _, l := range lns[b] {
+					_ = l.Ln.Shutdown()
+				}
 				delete(lns, b)
 			}
 		}
@@ -308,8 +311,10 @@ func c01Settled(run *evid.Run, n int, churn bool) (evals, placements int) {
 			}
 		}
 	}
-	for _, l := range lns {
-		_ = l.Ln.Shutdown()
+	for _, ls := range lns {
+		for _, l := range ls {
+			_ = l.Ln.Shutdown()
+		}
 	}
 	return
 }
